@@ -96,9 +96,9 @@ CHECKS["C16"] = dict(
     design="DESIGN.md §5 C16")
 
 CHECKS["C05"] = dict(
-    text="No separate model: the specifications already checked by TLC for C06/C07/C11 (spec/CGlueObj.tla, spec/CVec.tla) are bound to a two-module configuration. A plugin (cdylib with its own ledger allocator) and the host adapter are built by separate cargo invocations from a matrix of installed toolchains x debug/release x -Zrandomize-layout seeds; every object, group, vector and arc is created inside the plugin through extern \"C\" constructors returning #[repr(C)] values, and the TLC-generated behaviours are replayed with all calls, casts, clones, by-value calls and destruction issued by the host. Besides the per-step comparison with the specification, the host's ledger must see no free of memory it did not allocate and the plugin's live-block count must return to its base (memory released by the module that allocated it). Later rounds: vectors with capacity 0 (CVec::default) created in the plugin and first grown in the host; clones made in the host of plugin-created vectors. Round 7: a second exhaustive configuration with failing casts (MC_CGlueObj_cast.cfg); vectors, boxed slices and boxes of ReprCString (elements own memory of the creating module) made by one module and destroyed by the other, both directions; callbacks and iterators in all four creator/user combinations.",
+    text="No separate model: the specifications already checked by TLC for C06/C07/C11 (spec/CGlueObj.tla, spec/CVec.tla) are bound to a two-module configuration. A plugin (cdylib with its own ledger allocator) and the host adapter are built by separate cargo invocations from a matrix of installed toolchains x debug/release x -Zrandomize-layout seeds; every object, group, vector and arc is created inside the plugin through extern \"C\" constructors returning #[repr(C)] values, and the TLC-generated behaviours are replayed with all calls, casts, clones, by-value calls and destruction issued by the host. Besides the per-step comparison with the specification, the host's ledger must see no free of memory it did not allocate and the plugin's live-block count must return to its base (memory released by the module that allocated it). Later rounds: vectors with capacity 0 (CVec::default) created in the plugin and first grown in the host; clones made in the host of plugin-created vectors. Round 7: a second exhaustive configuration with failing casts (MC_CGlueObj_cast.cfg); vectors, boxed slices and boxes of ReprCString (elements own memory of the creating module) made by one module and destroyed by the other, both directions; callbacks and iterators in all four creator/user combinations. Later still: spec/Modules.tla states memory ownership between modules (every block ends in a free that reaches the allocator that handed it out, with the allocated size; each module is balanced at every quiescent marker); TLC checks it and shows that the foreign_free deviation violates NoForeignFree. The tagging allocators of host and plugin record what they are asked to do on one shared clock during every cross-module replay and script, and TLC validates the merged log (Trace_Modules) event by event.",
     note="Trusted: TLC, both adapters, the ledger allocators. Quick = 2 module pairs (stable-debug x nightly-release-randomized, both directions); thorough = 8 pairs over 6 build variants.",
-    technique="TLC-generated behaviours of the object/vector specifications replayed across a matrix of separately compiled module pairs with tagging allocators",
+    technique="TLC-generated behaviours of the object/vector specifications replayed across a matrix of separately compiled module pairs with tagging allocators; TLA+ spec of memory ownership between modules (Modules.tla) model-checked and used to validate the merged allocator logs recorded from the real code",
     design="DESIGN.md §5 C05")
 
 CHECKS["C17"] = dict(
